@@ -1560,15 +1560,15 @@ impl UntypedExpr {
                             errors.push(Some(TypeError::new(e, meta)));
                         }
                     }
-                    if struct_def.len() > fields.len() {
-                        for expected_field_name in struct_def.keys() {
-                            if !fields.iter().any(|(f, _)| f == expected_field_name) {
-                                let e = TypeErrorEnum::MissingStructField(
-                                    name.clone(),
-                                    expected_field_name.to_string(),
-                                );
-                                errors.push(Some(TypeError::new(e, meta)));
-                            }
+                    // always look for missing fields: comparing the number of fields is not
+                    // enough, because a literal can name the same field more than once
+                    for expected_field_name in struct_def.keys() {
+                        if !fields.iter().any(|(f, _)| f == expected_field_name) {
+                            let e = TypeErrorEnum::MissingStructField(
+                                name.clone(),
+                                expected_field_name.to_string(),
+                            );
+                            errors.push(Some(TypeError::new(e, meta)));
                         }
                     }
                     if errors.is_empty() {
